@@ -228,6 +228,44 @@ func (w *World) adversaryStep() bool {
 		return false
 	}
 	s := w.cfg.Strategies[w.ch.Pick("strategy", len(w.cfg.Strategies))]
+	if aw := w.advWait; aw != nil {
+		// a plan that waits for the correct nodes to reach a view
+		if h != aw.h {
+			w.advWait = nil
+		} else if v >= aw.v {
+			w.advPlan = append(w.advPlan, aw.then...)
+			w.advWait = nil
+			w.probe("byz-waited-plan-started")
+		}
+	}
+	if n := w.commitFailedN; n != nil {
+		// a correct node decided but could not hand the block to its consumer: it stays where it is. If the leader of
+		// that view is Byzantine it proposes again to that node (another block for the same height and view).
+		w.commitFailedN = nil
+		w.probe("adversary-saw-failed-commit")
+		if n.alive && !w.disabled("byz.pp") {
+			fh, fv := n.height(), n.view()
+			if l := w.keys.IdxOf(w.leader(fh, fv)); fh > 0 && l >= 0 && w.isByz(l) {
+				sg := w.signer(l)
+				blk := w.freshBlock(fh, l, false)
+				raw := SignedRefMsg(sg, KPP, protocol.LEAN_HELIX_PREPREPARE, w.instance, fh, fv, blk.Hash(), nil, blk)
+				w.rememberByzProposal(raw)
+				cls := "input.pp-hiview-standalone-from-leader"
+				if fv == 0 || !w.disabled(cls) {
+					if fv > 0 {
+						w.use(cls)
+					}
+					w.probe("byz-second-proposal-after-failed-commit")
+					w.action("byz")
+					w.ev("inject byz.pp from n%d to [%d] (second proposal after a failed commit) : %s", l, n.idx, Decode(raw).Short())
+					w.stats.Fault("byz.pp")
+					w.use("byz.pp")
+					w.deliver(&Flight{from: l, to: n.idx, raw: raw, tag: "byz.pp"})
+					return true
+				}
+			}
+		}
+	}
 	if len(w.advPlan) > 0 && w.ch.Pick("follow-plan", 4) > 0 {
 		// a director reached its target state: the adversary works on it for a while instead of acting at random
 		s = w.advPlan[0]
@@ -435,6 +473,12 @@ func (w *World) advPPHiView(b int, h, v uint64, tag string) bool {
 	blk := w.freshBlock(h, b, w.ch.Pick("pp-poison", 4) == 3)
 	raw := SignedRefMsg(sg, KPP, protocol.LEAN_HELIX_PREPREPARE, w.instance, h, tv, blk.Hash(), nil, blk)
 	w.rememberByzProposal(raw)
+	if legit && tv > v && w.advWait == nil {
+		// two proposals for one view: this one reaches the correct nodes ahead of time (while they are in a lower view);
+		// once they are in that view the same leader sends a NEW_VIEW proposing another block
+		w.advWait = &advWait{h: h, v: tv, then: []string{"byz.nv", "byz.follow", "byz.follow", "byz.follow", "byz.follow"}}
+		w.decoyFor = hv{h, tv}
+	}
 	return w.inject(b, raw, tag, nil) > 0
 }
 
@@ -806,7 +850,8 @@ func (w *World) advNewView(b int, h, v uint64, tag string) bool {
 	} else if pb := w.planned[hv{h, tv}]; pb != nil && best == nil {
 		blk, hash = pb, pb.Hash() // the block announced earlier by the leader's own early PREPARE (byz.self-prepare)
 	} else {
-		fb := w.freshBlock(h, b, w.ch.Pick("pp-poison", 4) == 3)
+		pz := w.ch.Pick("pp-poison", 4)
+		fb := w.freshBlock(h, b, pz == 3 || (pz == 2 && w.decoyFor == hv{h, tv}))
 		blk, hash = fb, fb.Hash()
 	}
 	if tag == "byz.nv-hash-mismatch" {
